@@ -236,6 +236,13 @@ def run_unit(name, repo, workdir, rlimit=DEFAULT_RLIMIT, seed=0, vacuity=True):
         res = {k: v.result() for k, v in jobs.items()}
     out['g'] = g
     out['main'] = analyse(g, res['main'], crate)
+    if out['main'].resource and not out['main'].hard_errors:
+        # a solver resource limit is not a verdict: retry once with a much larger limit
+        # (a failing obligation in a large function often needs more search than the proof itself)
+        res['main'] = run_verus(main_path, rlimit * 8, seed, 1500)
+        retry = analyse(g, res['main'], crate)
+        retry.retried_with_rlimit = rlimit * 8
+        out['main'] = retry
     out['obligations'] = obligations_of(g, crate)
     out['trusted'], out['forbidden'] = scan_trusted(g.text)
     if gv is not None:
